@@ -7,6 +7,7 @@ import (
 	"fmt"
 	"io"
 	"sort"
+	"strings"
 	"testing"
 
 	"github.com/containerd/nri/pkg/api"
@@ -26,7 +27,7 @@ func TestVerifC18(t *testing.T) {
 	w.Replayer = nil
 	ctx := context.Background()
 	p := &plugin{}
-	if err := p.setConfig([]byte("unifiedannotations: [memory.high, memory.swap.max]\nclasses:\n- name: swap\n  swaplimitratio: 0.5\n- name: plain\n")); err != nil {
+	if err := p.setConfig([]byte("unifiedannotations: [memory.high, memory.swap.max]\nclasses:\n- name: swap\n  swaplimitratio: 0.5\n- name: plain\n- name: \"\"\n")); err != nil {
 		t.Fatalf("config: %v", err)
 	}
 	// class "swap" (swapLimitRatio 0.5, memory limit 1000): memory.high=500, memory.swap.max=max; class "plain": nothing
@@ -38,7 +39,7 @@ func TestVerifC18(t *testing.T) {
 	}
 	s := annotationSuffix
 	names := []string{"c", "cc", "xc"}
-	classes := []string{"swap", "plain"}
+	classes := []string{"swap", "plain", "<empty>"} // <empty>: the annotation is present with an empty value (a configured class named ""), still beats the pod-level one
 	outcomes := map[string]bool{}
 	perms := map[int][][]int{}
 	for n := 0; n <= 6; n++ {
@@ -60,12 +61,12 @@ func TestVerifC18(t *testing.T) {
 							ann := map[string]string{}
 							eff := map[string]string{}
 							if cPod != "" {
-								ann["class"+s] = cPod
-								eff["class"] = cPod
+								ann["class"+s] = strings.TrimPrefix(cPod, "<empty>")
+								eff["class"] = ann["class"+s]
 							}
 							if cCtr != "" {
-								ann["class"+s+"/"+target] = cCtr
-								eff["class"] = cCtr
+								ann["class"+s+"/"+target] = strings.TrimPrefix(cCtr, "<empty>")
+								eff["class"] = ann["class"+s+"/"+target]
 							}
 							for _, kv := range []struct {
 								key string
